@@ -7,7 +7,7 @@ SPEC = {
     "thorough_budget_s": 900,
     "chunk": 15,
     "rule": (
-        "one case = one seeded history over {new from each template, open each sample (path / BytesIO / folder / foreign-writer re-zip), add_file (path|Path|BytesIO|short-read source|image; the same content repeatedly), del_part, image frames and other body/meta/style edits, merge_styles_from a sample (the same sample repeatedly), an extra part registered by hand (set_part + Manifest.add_full_path), continue on a clone, save as zip (path|BytesIO|in place|pre-existing target with/without backup; pretty or not), reopen (restart)}; every zip written is read by an independent zipfile/lxml inspector: first entry 'mimetype', ZIP_STORED, content = document type; no duplicate entry names; manifest has '/' with the mimetype; every file other than mimetype and META-INF/manifest.xml listed exactly once; every listed path present (directories: prefix of some entry). Mismatches the same inspector already finds in the source package are baseline and not counted. Error faults as in C03 (fail-stop). distinct = distinct run digest. non-trivial = >= 1 successful save and (>= 1 edit or >= 1 reopen)."
+        "one case = one seeded history over {new from each template, new from a document used as custom template (Document.new(path); the template file replaced right afterwards), open each sample (path / BytesIO / folder / foreign-writer re-zip), add_file (path|Path|BytesIO|short-read source|image; the same content repeatedly), del_part, image frames and other body/meta/style edits, merge_styles_from a sample (the same sample repeatedly), an extra part registered by hand (set_part + Manifest.add_full_path), continue on a clone, save as zip (path|BytesIO|in place|pre-existing target with/without backup; pretty or not) with folder saves in between (the same folder saved again, reopened, zipped), add_file of files whose suffix is not URL-safe, del_part of manifest.rdf, reopen (restart)}; every zip written is read by an independent zipfile/lxml inspector: first entry 'mimetype', ZIP_STORED, content = document type; no duplicate entry names; manifest has '/' with the mimetype; every file other than mimetype and META-INF/manifest.xml listed exactly once; every listed path present (directories: prefix of some entry). Mismatches the same inspector already finds in the source package are baseline and not counted. Error faults as in C03 (fail-stop). distinct = distinct run digest. non-trivial = >= 1 successful save and (>= 1 edit or >= 1 reopen)."
     ),
     "assumptions": [
         "the package inspector (engines/docsim.py inspect_odf_zip) is trusted",
